@@ -2,7 +2,7 @@
 From Coq Require Import ZArith Reals List Lra Lia.
 From Flocq Require Import Core.Raux.
 From EG Require Import Num.Num Num.RNum Lib.Vec Model.TolMap Model.Curve Model.Portion.
-From EG Require Import Proofs.Curve Proofs.Portion.
+From EG Require Import Proofs.Curve Proofs.Portion Proofs.PortionMore.
 Import ListNotations.
 Local Open Scope R_scope.
 
@@ -65,3 +65,35 @@ Proof.
   split; [apply (index_mono V c Hwf); [exact Vs | exact Ve | lra] | split; assumption].
 Qed.
 Print Assumptions C04_station_order.
+
+(* reversal: the reversed curve exists, has the source vertices in reverse order (so its first point is the
+   source's last and vice versa), the same total length and tolerance, and is well formed *)
+Theorem C04_reversed : forall (V : @VOps RNum), (forall a b : pt V, vdist V a b = vdist V b a) ->
+  forall (c : curve V), WF V c ->
+  exists r, reversed V c = Ok r /\ cpts V r = rev (cpts V c) /\ clength V r = clength V c /\ ctol V r = ctol V c /\ WF V r.
+Proof. exact reversed_ok. Qed.
+Print Assumptions C04_reversed.
+
+Theorem C04_reversed_twice : forall (V : @VOps RNum), (forall a b : pt V, vdist V a b = vdist V b a) ->
+  forall (c : curve V), WF V c ->
+  exists r r2, reversed V c = Ok r /\ reversed V r = Ok r2 /\ cpts V r2 = cpts V c /\ clength V r2 = clength V c.
+Proof. exact reversed_twice. Qed.
+Print Assumptions C04_reversed_twice.
+
+Theorem C04_dist_sym_curve2 : forall a b : pt (@VO2 RNum), vdist (@VO2 RNum) a b = vdist (@VO2 RNum) b a.
+Proof. exact vdist_sym2. Qed.
+Print Assumptions C04_dist_sym_curve2.
+
+(* split at l (each piece at least a tolerance long): both raw pieces exist, the first is requested to end and the
+   second starts at the curve's point at l, and their polyline lengths add up to the length of the curve *)
+Theorem C04_split_pieces : forall (V : @VOps RNum), VLaws V -> forall (c : curve V), WF V c ->
+  (forall (a b : pt V) f0 f1, f0 <= f1 -> vdist V (vlerp V a b f1) (vlerp V a b f0) = (f1 - f0) * vdist V b a) ->
+  forall l, ctol V c <= l -> ctol V c <= clength V c - l ->
+  exists s0 sl sL,
+    at_length V c 0 = Some s0 /\ at_length V c l = Some sl /\ at_length V c (clength V c) = Some sL /\
+    portion_points V c 0 l = Ok (Some (with_end V c (piece V c s0 sl) sl)) /\
+    portion_points V c l (clength V c) = Ok (Some (with_end V c (piece V c sl sL) sL)) /\
+    path_len V (st_point V s0) (map (vtx V c) (seq (S (st_index V s0)) (st_index V sl - st_index V s0)) ++ [st_point V sl]) +
+    path_len V (st_point V sl) (map (vtx V c) (seq (S (st_index V sl)) (st_index V sL - st_index V sl)) ++ [st_point V sL]) = clength V c.
+Proof. exact split_pieces. Qed.
+Print Assumptions C04_split_pieces.
